@@ -353,8 +353,21 @@ func check(c pileCase) *vlib.Failure {
 			fp.A, fp.B = b, a
 		}
 		a.Pair, b.Pair = fp, fp
+		shared := false
+		if orig := pairs1[i]; orig != nil && k%2 == 1 {
+			// the same pair again as another Pair value over the very same feature objects (swapped or
+			// not): refused like any duplicate, and the features keep pointing at the pair that was added
+			shared = true
+			fp = &pals.Pair{A: orig.A, B: orig.B, Score: orig.Score}
+			if len(c.ReFlip) > 0 && c.ReFlip[k%len(c.ReFlip)] {
+				fp.A, fp.B = orig.B, orig.A
+			}
+		}
 		if err := p1.Add(fp); err == nil {
-			return vlib.Failf("duplicate-accepted", "re-adding pair %d %v (flipped=%v) was accepted", i, pt, fp.A == b)
+			return vlib.Failf("duplicate-accepted", "re-adding pair %d %v (flipped=%v, same feature objects=%v) was accepted", i, pt, fp.A == b, shared)
+		}
+		if shared {
+			vlib.Count("duplicates-over-the-same-feature-objects-refused", 1)
 		}
 	}
 	if f := observe("order1/nil-filter", p1.Piles(nil), pairs1, all, exp); f != nil {
